@@ -253,6 +253,11 @@ def gen_case(seed, tier, index=0):
         world["root_name"] = rn
     ncmd = rng.randint(2, 3)
     cmds = [COMMANDS[0]] + rng.sample(COMMANDS[1:], ncmd - 1)
+    lf_files = []
+    if rng.chance(0.35):
+        cand = [f["path"] for f in world["files"] if not f["path"].startswith((".reuse/", ".git"))]
+        lf_files = rng.sample(cand, min(len(cand), rng.randint(1, 4)))
+        cmds.append(["lint-file", "--lines"])
     nvar = TIERS[tier]["variants"]
     hs = rng.sample(range(8), min(8, max(3, nvar)))
     variants = []
@@ -278,6 +283,14 @@ def gen_case(seed, tier, index=0):
         steps = []
         for c in cmds:
             argv = (["--debug"] if dbg else []) + (["--no-multiprocessing"] if serial else []) + (["--root", spelling] if spelling is not None else []) + list(c)
+            if c[0] == "lint-file":
+                # the same files, spelled relative to this variant's cwd (or absolutely)
+                cwd_abs = posixpath.normpath(posixpath.join("/B/" + rn, cwd))
+                for k, f in enumerate(lf_files):
+                    if (v + k) % 3 == 0 and not base:
+                        argv.append("$ROOT/" + f)
+                    else:
+                        argv.append(posixpath.relpath(posixpath.join("/B/" + rn, f), cwd_abs))
             st = dict(env, argv=argv)
             if pool:
                 st["pool"] = pool
@@ -339,7 +352,7 @@ def normalise(cmd, rec, cwd, world_paths, rn="p"):
         out["summary"] = s
         out["recommendations"] = d.get("recommendations")
         out["versions"] = [d.get("lint_version"), d.get("reuse_spec_version")]
-    elif cmd[0] == "lint" and "--lines" in cmd:
+    elif cmd[0] in ("lint", "lint-file") and "--lines" in cmd:
         lines = []
         for line in so.splitlines():
             if ": " in line:
@@ -427,6 +440,8 @@ def _dig(n, path):
 
 def _cmd_of(argv):
     argv = list(argv)
+    if "lint-file" in argv:
+        argv = argv[: argv.index("lint-file") + 2]  # the file arguments are spelled per environment
     out = []
     i = 0
     while i < len(argv):
@@ -468,6 +483,9 @@ def account(case, results, cov):
                 "detour" if ".." in root and "/" in root.strip("./") else "relative")
         cov.bump("root_spelling." + kind)
         cov.bump("mode." + ("serial" if "--no-multiprocessing" in st["argv"] else f"pool{st.get('pool', {}).get('n')}"))
+    for st, rec in zip(case["variants"][0]["steps"], results[0]["records"]):
+        c = _cmd_of(st["argv"])
+        cov.bump(f"baseline_exit.{' '.join(c[:2])}.{rec.get('exit')}")
     if len(cov.samples) < 3:
         cov.samples.append({"seed": case["seed"], "files": [f["path"] for f in case["world"]["files"]][:12],
                             "git": bool(case["world"].get("git")),
